@@ -1395,6 +1395,15 @@ async def do_sum(
     attribute: str | int | None = None,
     start: V = 0,  # type: ignore
 ) -> V:
+    # The builtin sum used by the sync version refuses these start values.
+    if isinstance(start, str):
+        raise TypeError("sum() can't sum strings [use ''.join(seq) instead]")
+
+    if isinstance(start, (bytes, bytearray)):
+        raise TypeError(
+            f"sum() can't sum {type(start).__name__} [use b''.join(seq) instead]"
+        )
+
     rv = start
 
     if attribute is not None:
